@@ -6,5 +6,10 @@ CONSTANTS
   Frames <- McFrames
   MaxFrames = 3
   CrcCounted = TRUE
+  PayFrames = {}
+  PayHeads = {}
+  TwiceLens = {}
+  PassThrough = FALSE
+  LenMod = 0
 INVARIANTS WireIsPending SyncAtHead Drained DecodeExact SetAscOk
 CHECK_DEADLOCK FALSE
